@@ -1,7 +1,8 @@
 """Plug-in source-tie groups (DESIGN.md §9.6).  One module per group `<Name>.py`, defining
 
   NAME      'SrcXyz'                      -- generated file lean/MV/Gen/SrcXyz.lean
-  ENTRIES   [dict(py=, name=, lean=, params=, ret=, ...)]   -- as in translate_src.GROUPS
+  ENTRIES   [dict(py=, name=, lean=, params=, ret=, ...)]   -- as in translate_src.GROUPS; the optional keys (fixed, defaults, copy, owned,
+                                             local_spec, nested, recursive, fuel, …) are listed at py2lean.translate_function
   IMPORTS   ['MV.Model.Xyz', ...]         -- Lean imports of the generated file (besides MV.Model.Py / MV.Model.Pitch)
   PRELUDE   [lean source lines]           -- optional, emitted before the translated definitions
   extend_spec(sp)                         -- optional: extra attrs / methods / ctors / subscripts bindings.  `sp` is the group's own
